@@ -122,7 +122,16 @@ Definition done_events (n : Z) (o : op) (close_id : option Z) (s0 s_env s1 : st)
                     | Some c => if is_returned (cl s1) && negb (is_returned (cl s0)) then [c] else []
                     | None => [] end in
   let close2_done := filter (fun id => negb (memZ id (returned2 s0))) (returned2 s1) in
-  map (fun c => (n, EDone c)) (sortZ (subs_done ++ batch_done ++ close_done ++ close2_done)).
+  (* what the caller of a returning Close call finds when it probes, at that moment, the channels
+     nobody is receiving from (consumer on command, no read outstanding): only a subscription that
+     was silently dropped (Subscribe on a closed batcher) can still be open *)
+  let open_subs := flat_map (fun ib : nat * sub =>
+                      let b := snd ib in
+                      if negb (prompt b) && (wants b =? 0)%nat && negb (user_closed b)
+                      then [Z.of_nat (fst ib)] else [])
+                     (combine (seq 0 (length (subs s1))) (subs s1)) in
+  map (fun c => (n, EDone c)) (sortZ (subs_done ++ batch_done ++ close_done ++ close2_done))
+  ++ flat_map (fun c => map (fun i => (n, EOpen c i)) open_subs) (sortZ (close_done ++ close2_done)).
 
 Record drv := mkDrv {
   d_st : st;
@@ -185,6 +194,7 @@ Definition oev_eqb (a b : oev) : bool :=
   | ERecv i v, ERecv j w => (i =? j)%Z && (v =? w)%Z
   | EClosed i, EClosed j => (i =? j)%Z
   | EDone c, EDone d => (c =? d)%Z
+  | EOpen c i, EOpen d j => (c =? d)%Z && (i =? j)%Z
   | _, _ => false
   end.
 
